@@ -537,6 +537,10 @@ def str_methods(interp, s, name):
 
 
 def builtin_getattr(interp, v, name):
+    if is_numlike(v) and interp.theory is not None and getattr(interp.theory, 'number_attr', None) is not None:
+        r = interp.theory.number_attr(interp, v, name)      # facets in which a number stands for an array element
+        if r is not None:
+            return r
     if isinstance(v, str):
         return str_methods(interp, v, name)
     if isinstance(v, SSeq):
